@@ -12,3 +12,4 @@ from . import dl             # noqa: F401
 from . import errno_         # noqa: F401
 from . import compare        # noqa: F401
 from . import unpack         # noqa: F401
+from . import prims          # noqa: F401
